@@ -552,6 +552,20 @@ pub fn replay_parse(rep: &mut Report, rec: &J) {
 				if let Err(p) = guarded(|| crate::navv::check_nav(rep, &ctx, &s, &v, &cm, &rec["nav"])) {
 					rep.mismatch("C11.nav", json!({"what": "navigation panicked", "input": ctx, "panic": p}));
 				}
+				// the same navigation over a document parsed from characters measured in UTF-16 bytes: the code map is then in
+				// UTF-16 coordinates, and every offset must still designate its element's source text
+				if rep.counters["parse_vectors"] % 4 == 1 {
+					if let Ok(Ok((v16, cm16))) = guarded(|| Value::parse_with(s.chars().map(|c| Ok::<_, Infallible>(DecodedChar::new(c, 2 * c.len_utf16()))), o)) {
+						crate::navv::NAV_UTF16.with(|m| m.set(true));
+						let mut c16 = ctx.clone();
+						c16["transport"] = json!("utf16");
+						let r = guarded(|| crate::navv::check_nav(rep, &c16, &s, &v16, &cm16, &rec["nav"]));
+						crate::navv::NAV_UTF16.with(|m| m.set(false));
+						if let Err(p) = r {
+							rep.mismatch("C11.nav", json!({"what": "navigation panicked (UTF-16 coordinates)", "input": c16, "panic": p}));
+						}
+					}
+				}
 			}
 		}
 	} else {
